@@ -187,7 +187,9 @@ def run(tier):
     for i, s in enumerate(strs):
         a, b, c = r1.get(i), r2.get(i), r3.get(i)
         if any(x is not None and x.get("skipped") for x in (a, b, c)):
-            continue
+            if all(x is not None for x in (a, b, c)):
+                continue                # not run in this run (the budget of hung inputs was used up)
+            a, b, c = [None if (x is not None and x.get("skipped")) else x for x in (a, b, c)]   # a call that did not return
         kept.append(i)
         lines.append({"id": i, "r1": canon(a), "r2": canon(b), "r3": canon(c),
                       "panic": any(x is not None and bool(x.get("panic")) for x in (a, b, c)),
